@@ -31,7 +31,7 @@ CLAIMED = {
              "backlog, a re-queue at the back). 22 theorems. Partial: the DEALER model is tied by translator flags and the streaming "
              "scenarios (no lock-step run: the processor is a timing-driven task); the load balancer across several peers, the ROUTER "
              "map, the inproc path and the io_uring backend are exercised by the streaming scenarios only; liveness (everything "
-             "accepted is eventually written) is observed, not proved.",
+             "accepted is eventually written) is observed, not proved. KNOWN FINDING rare-connection-stall (symptom only: twice in ~10^5 stream cases a fresh tcp connection carried no data at all; a matching case is attributed to it only after three clean replays of the same case).",
         note=COMMON_NOTE + "The model's events are atomic with respect to each other because the session actor is a single task; fibre channels are assumed FIFO.",
         design="§8 C01"),
     "C02": dict(
@@ -50,7 +50,7 @@ CLAIMED = {
              "messages to its peers, each to one peer, for every sequence of calls and any number of peers (counterexample theorem for "
              "per-frame load balancing). 16 theorems. Partial: DEALER's and ROUTER's own stash "
              "code is tied by pattern flags and stack scenarios rather than a component run; ROUTER's frame-by-frame send() path can still put more "
-             "than the limit on the wire (the receiver then closes the connection, which the property allows).",
+             "than the limit on the wire (the receiver then closes the connection, which the property allows). KNOWN FINDING rare-connection-stall (symptom only: twice in ~10^5 stream cases a fresh tcp connection carried no data at all; a matching case is attributed to it only after three clean replays of the same case).",
         note=COMMON_NOTE + "The ready-pipe queue is modelled sequentially here (its concurrency is C08's subject).",
         design="§8 C02"),
     "C03": dict(
@@ -124,10 +124,10 @@ CLAIMED = {
     "C09": dict(
         engine="M4 Rpq + M15 SendTx",
         technique="Lean 4: the queue invariant of C08 extended with a `cancel` action (drop of a future parked at an await), and an "
-                  "invariant over all histories of the frame-by-frame send transaction of DEALER and ROUTER with dropped futures (configuration "
+                  "invariant over all histories of the frame-by-frame send transaction of DEALER, ROUTER, PUB and PUSH with dropped futures (configuration "
                   "re-extracted from the source on every run); tie: turnstile "
                   "schedules with injected cancellations on the real ReadyPipeQueue, run in lock-step with the model; stack level: send()/"
-                  "send_multipart()/recv()/recv_multipart() futures of real PUSH/PULL, DEALER/ROUTER, ROUTER/DEALER, DEALER/DEALER pairs "
+                  "send_multipart()/recv()/recv_multipart() futures of real PUSH/PULL, DEALER/ROUTER, ROUTER/DEALER, DEALER/DEALER, PUB/SUB pairs "
                   "polled 1..6 times and dropped, under back-pressure with peer traffic in between, judged by a loss/duplicate/tear/order/"
                   "usability oracle",
         text="Proof over the queue model: dropping a future that is parked at an await (a consumer waiting for a ready entry, a producer "
@@ -172,7 +172,7 @@ CLAIMED = {
              "round trips DEALER->ROUTER, ROUTER->DEALER, REQ->ROUTER, ROUTER->REQ, REQ<->REP, DEALER<->REP preserve payload frames "
              "(empty frames anywhere). 13 theorems. Partial: the identity gate (pipe_finalized/held_ingress), ROUTER_MANDATORY error "
              "mapping and the sockets' private envelope methods are tied only through the model of their pure parts; stack-level ROUTER "
-             "scenarios are not yet part of this check.",
+             "scenarios are not yet part of this check. KNOWN FINDING rare-connection-stall (symptom only: twice in ~10^5 stream cases a fresh tcp connection carried no data at all; a matching case is attributed to it only after three clean replays of the same case).",
         note=COMMON_NOTE + "Socket-level envelope functions are modelled from the source text; they are private methods not reachable from the harness.",
         design="§8 C11"),
     "C14": dict(
